@@ -70,13 +70,17 @@ CHECKS["C19"] = ("model_checking",
     "Reduced claim: orders are engine nondeterminism under a delay bound (D=1 quick, D=2 thorough), the solver does not decide anything here; template expansion and goimports are outside. Finding F1 was fixed in /repo; a counterexample is confirmed by repeated native runs of the tool.",
     "engine-level exploration of map iteration orders over the SSA of the real pipeline (delay-bounded); no SMT query decides this property", "§3 C19")
 
+CHECKS["C13"] = ("model_checking",
+    "The stages of main() below flag/file handling (generated front end on the grammar text, ast.Optimize, builder.BuildParser) are executed symbolically: (i) the whole grammar text symbolic, (ii) a symbolic byte substituted at positions of catalogue grammars; generation flags symbolic. On every path no Go panic leaves the pipeline and the outcome is a diagnostic or a complete buffer; sampled paths are re-run through the real binary (exit status, no panic trace).",
+    "Bounded: whole text <= 3 (quick) / 4 (thorough) unconstrained bytes; 1-byte mutations at a stride (quick) / every position (thorough) of 4 / 8 grammars. Flag parsing, file I/O, template expansion and goimports are outside. Findings F7a, F7b were fixed in /repo.",
+    TECH + "symbolic grammar text through the real front end, optimizer and builder", "§3 C13")
+
 NOT_BUILT = {
 }
 
 NA = {
     "C03": "not built yet (front-end checks are in progress)",
     "C04": "not built yet",
-    "C13": "not built yet",
     "C18": "not built yet",
     "C20": "not built yet",
 }
